@@ -11,13 +11,16 @@ static uint32_t vf_hash(const void *d, size_t n) { uint32_t h = 0; for (size_t i
 #include "utilities/qstring.c"
 #include "containers/qlisttbl.c"
 typedef qlisttbl_t cont_t;
+#define SEQP "C08."
 #elif VF_CONT == 4
 #include "containers/qhashtbl.c"
 typedef qhashtbl_t cont_t;
+#define SEQP "C05."
 #else
 #include "utilities/qstring.c"
 #include "containers/qtreetbl.c"
 typedef qtreetbl_t cont_t;
+#define SEQP "C01."
 #endif
 
 #define OP_PUT 1
@@ -29,12 +32,23 @@ typedef qtreetbl_t cont_t;
 #define VF_N0 1
 #endif
 
-struct vf_input { uint8_t initv[2]; uint8_t k1, k2, v1, v2; uint8_t sched; };
+#ifdef VF_SEQ3
+#define NK 4   /* history queries: keys a, c, e share a hash-table slot (stub hash, range 2), b lives in the other one */
+#else
+#define NK 2
+#endif
+#define KMASK (NK - 1)
+struct vf_input { uint8_t initv[NK]; uint8_t k1, k2, k3, v1, v2, v3; uint8_t sched; };
 extern struct vf_input vfin;
 
-struct mp { uint8_t has[2]; uint8_t val[2]; };
+struct mp { uint8_t has[NK]; uint8_t val[NK]; };
 struct res { int ok; int has; uint8_t val; int n; };
-static const char *KEY[2] = {"a", "b"};
+#ifdef VF_SEQ3
+static const char *KEY[NK] = {"a", "c", "e", "b"};
+#else
+static const char *KEY[NK] = {"a", "b"};
+#endif
+static int mp_count(const struct mp *m) { int n = 0; for (int k = 0; k < NK; k++) n += m->has[k] ? 1 : 0; return n; }
 
 static void ideal(struct mp *m, int op, int k, uint8_t v, struct res *r) {
     r->ok = 0; r->has = 0; r->val = 0; r->n = -1;
@@ -42,8 +56,8 @@ static void ideal(struct mp *m, int op, int k, uint8_t v, struct res *r) {
     case OP_PUT: m->has[k] = 1; m->val[k] = v; r->ok = 1; break;
     case OP_GET: if (m->has[k]) { r->ok = 1; r->has = 1; r->val = m->val[k]; } break;
     case OP_REMOVE: if (m->has[k]) { m->has[k] = 0; r->ok = 1; } break;
-    case OP_SIZE: r->ok = 1; r->n = m->has[0] + m->has[1]; break;
-    case OP_CLEAR: m->has[0] = m->has[1] = 0; r->ok = 1; break;
+    case OP_SIZE: r->ok = 1; r->n = mp_count(m); break;
+    case OP_CLEAR: for (int k = 0; k < NK; k++) m->has[k] = 0; r->ok = 1; break;
     }
 }
 static void real(cont_t *c, int op, int k, uint8_t v, struct res *r) {
@@ -63,8 +77,8 @@ static void real(cont_t *c, int op, int k, uint8_t v, struct res *r) {
 }
 static bool res_eq(const struct res *a, const struct res *b) { return a->ok == b->ok && a->has == b->has && a->n == b->n && (!a->has || a->val == b->val); }
 static bool contents_eq(cont_t *c, const struct mp *m) {
-    if ((int)c->size(c) != m->has[0] + m->has[1]) return false;
-    for (int k = 0; k < 2; k++) {
+    if ((int)c->size(c) != mp_count(m)) return false;
+    for (int k = 0; k < NK; k++) {
         char *p = c->getstr(c, KEY[k], false);
         if ((p != NULL) != (m->has[k] != 0)) return false;
         if (p && (uint8_t)p[0] != m->val[k]) return false;
@@ -72,7 +86,7 @@ static bool contents_eq(cont_t *c, const struct mp *m) {
     return true;
 }
 static cont_t *g_c; static struct res g_r2; static int g_t2_done; static unsigned g_points;
-static void run_t2(void) { g_t2_done = 1; real(g_c, VF_OP2, vfin.k2 & 1, vfin.v2, &g_r2); }
+static void run_t2(void) { g_t2_done = 1; real(g_c, VF_OP2, vfin.k2 & KMASK, vfin.v2, &g_r2); }
 /* ---- lock-discipline monitor ("no data race on container state"): while T1 is OUTSIDE its critical sections the
  * structural pointers of the container are hidden (the container looks empty); they are restored at every outermost lock
  * acquisition and hidden again after every outermost release.  Code that touches the structure only under the lock never
@@ -108,11 +122,30 @@ void vf_harness(void) {
     cont_t *c = qtreetbl(QTREETBL_THREADSAFE);
 #endif
     VF_ASSUME(c != NULL);
-    VF_ASSUME(vfin.v1 != 0 && vfin.v2 != 0 && vfin.initv[0] != 0 && vfin.initv[1] != 0);
-    struct mp m0 = {{0, 0}, {0, 0}};
+    VF_ASSUME(vfin.v1 != 0 && vfin.v2 != 0 && vfin.v3 != 0);
+    for (int k = 0; k < NK; k++) VF_ASSUME(vfin.initv[k] != 0);
+    struct mp m0;
+    for (int k = 0; k < NK; k++) { m0.has[k] = 0; m0.val[k] = 0; }
     for (int i = 0; i < VF_N0; i++) { char vs[2] = {(char)vfin.initv[i], 0}; VF_ASSUME(c->putstr(c, KEY[i], vs)); m0.has[i] = 1; m0.val[i] = vfin.initv[i]; }
     g_c = c;
     struct res r1;
+#ifdef VF_SEQ3
+    /* HISTORY query (see sched.c): three calls in a row through the public API, kinds constant, keys/values symbolic */
+    {
+        struct mp m = m0;
+        struct res i1, i2, i3, r2, r3;
+        real(c, VF_OP1, vfin.k1 & KMASK, vfin.v1, &r1); ideal(&m, VF_OP1, vfin.k1 & KMASK, vfin.v1, &i1);
+        VF_ASSERT(res_eq(&r1, &i1), SEQP "seq.step1: first call of a three-call history returns what the ideal map returns");
+        real(c, VF_OP2, vfin.k2 & KMASK, vfin.v2, &r2); ideal(&m, VF_OP2, vfin.k2 & KMASK, vfin.v2, &i2);
+        VF_ASSERT(res_eq(&r2, &i2), SEQP "seq.step2: second call of a three-call history returns what the ideal map returns");
+        real(c, VF_OP3, vfin.k3 & KMASK, vfin.v3, &r3); ideal(&m, VF_OP3, vfin.k3 & KMASK, vfin.v3, &i3);
+        VF_ASSERT(res_eq(&r3, &i3), SEQP "seq.step3: third call of a three-call history returns what the ideal map returns");
+        VF_ASSERT(contents_eq(c, &m), SEQP "seq.contents: after three calls the container holds exactly the ideal map");
+        VF_ASSERT(vf_lock_depth == 0, "C14.seq.lock: every call returns with the lock released");
+        c->free(c);
+        VF_REACH("end");
+    }
+#else
 #ifdef VF_SCHED
     /* tree table: the scheduling point is a per-query constant (the driver enumerates 0 = before, 1..4 = k-th outermost
      * acquire/release, 99 = after), so that only ONE symbolic restructuring by T2 is encoded per query */
@@ -121,18 +154,19 @@ void vf_harness(void) {
     if (vfin.sched == 0) run_t2();
     vf_sched_hook = hook;
     hide(c);
-    real(c, VF_OP1, vfin.k1 & 1, vfin.v1, &r1);
+    real(c, VF_OP1, vfin.k1 & KMASK, vfin.v1, &r1);
     show(c);
     vf_sched_hook = NULL;
     if (!g_t2_done) run_t2(); else if (vfin.sched != 0) VF_COVER("t2-inside");
     VF_ASSERT(vf_lock_depth == 0, "C14.sched.lock: both calls return with the lock released");
     struct mp a = m0, b = m0; struct res a1, a2, b1, b2;
-    ideal(&a, VF_OP1, vfin.k1 & 1, vfin.v1, &a1); ideal(&a, VF_OP2, vfin.k2 & 1, vfin.v2, &a2);
-    ideal(&b, VF_OP2, vfin.k2 & 1, vfin.v2, &b2); ideal(&b, VF_OP1, vfin.k1 & 1, vfin.v1, &b1);
+    ideal(&a, VF_OP1, vfin.k1 & KMASK, vfin.v1, &a1); ideal(&a, VF_OP2, vfin.k2 & KMASK, vfin.v2, &a2);
+    ideal(&b, VF_OP2, vfin.k2 & KMASK, vfin.v2, &b2); ideal(&b, VF_OP1, vfin.k1 & KMASK, vfin.v1, &b1);
     bool lin_a = res_eq(&r1, &a1) && res_eq(&g_r2, &a2) && contents_eq(c, &a);
     bool lin_b = res_eq(&r1, &b1) && res_eq(&g_r2, &b2) && contents_eq(c, &b);
     VF_ASSERT(lin_a || lin_b, "C13.linearizable: results and final contents equal those of one of the two sequential orders (no update lost, duplicated or half-applied; no access to the container structure outside its lock)");
     c->free(c);
     VF_REACH("end");
+#endif
 }
 #include "vf_main.h"
